@@ -200,6 +200,21 @@ Definition deadlock_schedule (p : list op) : option (list nat) :=
   | None => None
   end.
 
+(* every program of the shape  pre ++ RLock :: rest  where pre ends read-holding deadlocks against one writer *)
+Theorem nested_shape_deadlocks pre rest :
+  mode_after Out pre = Some InR ->
+  exists s, run (init [pre ++ RLock :: rest; writer]) (solo_sched pre ++ [1]) = Some s
+            /\ (forall t, step s t = None) /\ ~ done s.
+Proof.
+  intros Hm.
+  exists {| progs := [RLock :: rest; writer]; readers := 1; ws := WPending 1 |}.
+  split; [|split].
+  - rewrite run_app. change (init [pre ++ RLock :: rest; writer]) with (st Out (pre ++ RLock :: rest) [writer]).
+    rewrite (solo_run pre Out InR (RLock :: rest) [writer] Hm). reflexivity.
+  - intros [|[|t]]; try reflexivity. unfold step. cbn. destruct t; reflexivity.
+  - intros Hd. specialize (Hd 0 (RLock :: rest) eq_refl). discriminate.
+Qed.
+
 Theorem nested_rlock_deadlocks p sched :
   deadlock_schedule p = Some sched ->
   exists s, run (init [p; writer]) sched = Some s /\ (forall t, step s t = None) /\ ~ done s.
@@ -207,12 +222,7 @@ Proof.
   unfold deadlock_schedule. destruct (nested_split_from Out p) as [[pre rest]|] eqn:E; [|discriminate].
   intros H; inversion H; subst; clear H.
   destruct (nested_split_from_spec _ _ _ _ E) as [-> Hm].
-  exists {| progs := [RLock :: rest; writer]; readers := 1; ws := WPending 1 |}.
-  split; [|split].
-  - rewrite run_app. change (init [pre ++ RLock :: rest; writer]) with (st Out (pre ++ RLock :: rest) [writer]).
-    rewrite (solo_run pre Out InR (RLock :: rest) [writer] Hm). reflexivity.
-  - intros [|[|t]]; try reflexivity. unfold step. cbn. destruct t; reflexivity.
-  - intros Hd. specialize (Hd 0 (RLock :: rest) eq_refl). discriminate.
+  apply nested_shape_deadlocks, Hm.
 Qed.
 
 Lemma flat_no_nested p : flat p = true -> deadlock_schedule p = None.
